@@ -152,7 +152,12 @@ def _check_perf_events(c, pl, events, notes, start, ms, nbins, instrument):
          for n in notes]
 
   def vbin(v):
-    return pl.velocity_to_bin(v, nbins) if nbins else 0
+    # equal-width bins over the 127 MIDI velocities 1..127, independent of the
+    # library's own helper: width ceil(127 / nbins), bins numbered from 1
+    if not nbins:
+      return 0
+    width = -(-127 // nbins)
+    return (v - 1) // width + 1
 
   exp_on = [(s, (n['p'], n['qs'], vbin(n['v']))) for s, n in zip(sel, notes)]
   exp_off = [(s, (n['p'], n['qe'])) for s, n in zip(sel, notes)]
@@ -537,6 +542,9 @@ def jobs(tier):
   add('h_performance', kind='absolute', N=2, bins=8, msq=4, loops=2, budget=600)
   add('h_performance', kind='metric', N=2, bins=0, msq=4, loops=2, budget=600)
   add('h_performance', kind='absolute', N=1, bins=127, msq=4, instrument=1)
+  # bin counts that divide 126 (the fence-post between 126 and 127 velocities)
+  add('h_performance', kind='absolute', N=1, bins=2, msq=4)
+  add('h_performance', kind='metric', N=1, bins=21, msq=4)
   # the ends of the pitch range (0 is falsy in Python)
   add('h_performance', kind='absolute', N=1, bins=4, msq=4, pitch=[0, 1])
   add('h_performance', kind='metric', N=1, bins=0, msq=4, pitch=[126, 127])
